@@ -36,9 +36,9 @@ def _found_branch(ctx):
     loops = [n for n in ast.walk(fn) if isinstance(n, ast.For) and "target.nodes" in norm(n.iter) and n.orelse
              and any("modify_value" in norm(x) for x in ast.walk(n))]
     if len(loops) == 1:
-        found = [i for i in loops[0].body if isinstance(i, ast.If) and "name == node.name" in norm(i.test)]
-        if len(found) == 1:
-            return fn, found[0].body, loops[0].orelse
+        ll = K.lookup_loop(loops[0])
+        if ll is not None and "name == node.name" in ll["test"]:
+            return fn, ll["found"], loops[0].orelse
     idx = [n for n in ast.walk(fn) if isinstance(n, ast.If) and isinstance(n.test, ast.Compare) and isinstance(n.test.ops[0], ast.In)
            and norm(n.test.left) == "node.name" and any("modify_value" in norm(x) for x in ast.walk(n))]
     if len(idx) == 1:
@@ -73,21 +73,63 @@ def r2_pipeline(ctx):
     ok = g is not None and any(isinstance(x, ast.Raise) for x in g.body) and "node.dtype != self.dtype" in norm(g.test) and "node.keyword != 'mod'" in norm(g.test)
     ctx.check(ok, NB, "BaseNode.modify_value", "a typed re-definition with another data type is an error (first statement)", detail=norm(g.test) if g is not None else None,
               expected="node.keyword != 'mod' and node.dtype != self.dtype -> raise")
-    casts = [x for x in ast.walk(fn) if isinstance(x, ast.Assign) and norm(x.targets[0]) == "value.value"]
-    ctx.check(len(casts) == 1 and norm(casts[0].value) == "self.cast_value(node.value_raw)", NB, "BaseNode.modify_value",
-              "the new raw value is cast by the definition's caster", detail=[norm(c.value) for c in casts], expected="self.cast_value(node.value_raw)")
-    num = [x for x in body if isinstance(x, ast.If) and norm(x.test) in ("isinstance(value, (IntegerType, FloatType))", "isinstance(value, NumberType)")]
-    if len(num) != 1:
+    from ..flowexpr import paths
+    pa = [a.arg for a in fn.args.args]
+    if len(pa) != 3:
+        ctx.unrecognised(NB, "BaseNode.modify_value", "signature", f"parameters {pa}")
+        return
+    _, p_node, p_env = pa
+    COPY = "self.value.copy()"
+    ps = [q for q in paths(fn) if q.status != "raise"]
+    casts, numeric, copies, final = set(), [], [], []
+    for q in ps:
+        stores = [e for e in q.events if e.kind == "store"]
+        for e in stores:
+            if e.extra == f"{COPY}.value":
+                casts.add(norm(e.resolved))
+        copies.append(any(COPY in norm(e.resolved) or COPY in str(e.extra) for e in q.events if e.kind in ("store", "expr")))
+        isnum = None
+        for t in q.tests():
+            if norm(t.resolved) in (f"isinstance({COPY}, (IntegerType, FloatType))", f"isinstance({COPY}, NumberType)"):
+                isnum = t.extra if isnum is None else isnum
+        if isnum:
+            seq = []
+            for e in q.events:
+                if e.kind == "store" and e.extra == f"{COPY}.unit":
+                    seq.append(f"unit={norm(e.resolved)}")
+                elif e.kind == "expr" and norm(e.resolved).startswith(f"{COPY}.convert("):
+                    seq.append(norm(e.resolved).replace(COPY, "value"))
+            numeric.append(seq[:2])
+        elif isnum is None:
+            numeric.append(None)
+        none = None
+        for t in q.tests():
+            k = norm(t.resolved)
+            if k == f"{COPY}.value is None":
+                none = t.extra
+            elif k == f"{COPY}.value is not None":
+                none = not t.extra
+        if none is None:
+            final.append(False)
+        elif none:
+            final.append(any(e.extra == "self.value" and norm(e.resolved) == COPY for e in stores))
+        else:
+            final.append(any(e.kind == "expr" and norm(e.resolved) == f"self.set_value({COPY}.value)" for e in q.events))
+    want_cast = f"self.cast_value({p_node}.value_raw)"
+    if not casts:
+        ctx.unrecognised(NB, "BaseNode.modify_value", "the new raw value is cast by the definition's caster", "no store to the value of the copied typed value found")
+    else:
+        ctx.check(casts == {want_cast}, NB, "BaseNode.modify_value", "the new raw value is cast by the definition's caster", detail=sorted(casts), expected=want_cast)
+    if not numeric or any(n is None for n in numeric):
         ctx.unrecognised(NB, "BaseNode.modify_value", "numeric branch", "unit handling block not found")
     else:
-        b = [norm(x) for x in num[0].body]
-        ctx.check(b == ["value.unit = node.units_raw", "value.convert(self.units_raw, env)"], NB, "BaseNode.modify_value",
-                  "the assignment's unit is attached, then converted into the definition's unit under the environment's custom units", detail=b,
-                  expected=["value.unit = node.units_raw", "value.convert(self.units_raw, env)"])
-    ctx.form("value = self.value.copy()" in s, NB, "BaseNode.modify_value", "works on a copy of the definition's typed value (type, width, sign kept)")
-    last = body[-1]
-    ok = isinstance(last, ast.If) and norm(last.test) == "value.value is None" and any("self.set_value(value.value)" in norm(x) for x in last.orelse)
-    ctx.form(ok, NB, "BaseNode.modify_value", "the converted value is stored through the node's own setter; none is stored as none")
+        want = [f"unit={p_node}.units_raw", f"value.convert(self.units_raw, {p_env})"]
+        seqs = [n for n in numeric if n is not None]
+        ctx.check(bool(seqs) and all(n == want for n in seqs), NB, "BaseNode.modify_value",
+                  "the assignment's unit is attached, then converted into the definition's unit under the environment's custom units",
+                  detail=sorted({str(n) for n in seqs}), expected=want)
+    ctx.form(bool(copies) and all(copies), NB, "BaseNode.modify_value", "works on a copy of the definition's typed value (type, width, sign kept)")
+    ctx.form(bool(final) and all(final), NB, "BaseNode.modify_value", "the converted value is stored through the node's own setter; none is stored as none")
     # conversion direction in NumberType.convert
     fn = ctx.fn(TN, "NumberType.convert")
     qs = [c for c in ast.walk(fn) if isinstance(c, ast.Call) and isinstance(c.func, ast.Attribute) and c.func.attr == "value"
